@@ -413,6 +413,12 @@ class SkeletonChecker:
                 if bad:
                     findings.append(Finding("witness", "the real interpreter deviates from the machine specification on a path witness: " + bad,
                                             wsrc, skel, role="witness"))
+                elif j.get("leak") not in (None, 0):
+                    # heap ledger of the real run (C03/C04): blocks still allocated after the machine is gone and the caller released the result
+                    n = j["leak"]
+                    findings.append(Finding("ledger", "heap ledger of the real run on a path witness: %s" % (
+                        "%d block(s) never released" % n if n > 0 else "%d release(s) too many (something was released twice)" % -n), wsrc, skel, role="ledger"))
+                self.stats["ledger_audits"] = self.stats.get("ledger_audits", 0) + (1 if j.get("leak") is not None else 0)
         if getattr(eng, "truncated", False):
             self.stats["truncated"] += 1
         self.stats["queries"] += eng.queries
@@ -665,6 +671,15 @@ def confirm(native, finding, profiles=("dev", "release")):
                 elif j.get("output", "") != out_text(ref[2]):
                     confirmed = True
                     why.append("%s: output before error %r vs %r" % (prof, j.get("output", "")[:80], out_text(ref[2])[:80]))
+    if finding.kind == "ledger":
+        # replay: the ledger of the same concrete program, both profiles
+        confirmed = False
+        why = []
+        for prof in profiles:
+            j = native.eval_one(src, release=(prof == "release"))
+            if j.get("leak") not in (None, 0):
+                confirmed = True
+                why.append("%s: heap ledger %+d block(s)" % (prof, j["leak"]))
     if finding.kind in ("residue", "typing", "unsafe") and not confirmed:
         # native witness of an unbalanced operand stack: the real machine's stack after the real run
         j = native.eval_one(src, cmd="probe")
